@@ -1040,6 +1040,7 @@ class Evaluator:
             outs = self._ev(tgt.slice, st, mod, fi, depth)
             it, st, _ = outs[0]
             key = _lvalue_key(tgt.value)
+            it = _slice_index(it)
             st.effects.append(('setitem', bt, it, t, ln, key))
             if key:
                 if bt[0] == 'list' and is_c(it) and type(it[1]) is int and -len(bt[1]) <= it[1] < len(bt[1]):
@@ -1240,6 +1241,11 @@ class Evaluator:
                     r = False
                 if r is not None:
                     return r if op == 'is' else (not r)
+            if op in ('is', 'isnot') and is_c(b) and isinstance(b[1], bool) and a[0] == 'call' \
+                    and a[1] in ('numpy.all', 'numpy.any', 'numpy.isnan', 'numpy.array_equal', 'numpy.allclose',
+                                 'numpy.logical_and', 'numpy.logical_or', 'numpy.logical_not', 'numpy.isfinite'):
+                # a numpy boolean is never the Python singleton True / False: `np.all(..) is False` is always False
+                return op == 'isnot'
             if op in ('is', 'isnot') and is_c(a) and is_c(b):
                 r = (a[1] is b[1]) if isinstance(b[1], (bool, type(None))) else (a[1] == b[1])
                 return r if op == 'is' else not r
@@ -1458,11 +1464,19 @@ class Evaluator:
         if m is None or name not in m.assigns:
             return None
         node = m.assigns[name]
-        if not isinstance(node, (ast.Tuple, ast.List, ast.Dict)):
+        scalar_expr = isinstance(node, (ast.BinOp, ast.Constant, ast.UnaryOp, ast.Attribute))
+        if not isinstance(node, (ast.Tuple, ast.List, ast.Dict)) and not scalar_expr:
             return None
         for n in ast.walk(node):
             if not isinstance(n, (ast.Tuple, ast.List, ast.Dict, ast.Constant, ast.Name, ast.Attribute, ast.Load,
-                                  ast.UnaryOp, ast.USub)):
+                                  ast.UnaryOp, ast.USub, ast.BinOp, ast.Mult, ast.Div, ast.Add, ast.Sub, ast.Pow)):
+                return None
+        if scalar_expr:
+            # a module-level numeric constant (`_TWO_PI = 2 * np.pi`): only when the name is bound once in the module
+            nbind = sum(1 for st_ in m.tree.body if isinstance(st_, (ast.Assign, ast.AugAssign, ast.AnnAssign))
+                        for t_ in (st_.targets if isinstance(st_, ast.Assign) else [st_.target])
+                        for x_ in ast.walk(t_) if isinstance(x_, ast.Name) and x_.id == name) if hasattr(m, 'tree') else 1
+            if nbind != 1 or any(isinstance(n, ast.Name) and n.id not in ('np', 'numpy', 'math') for n in ast.walk(node)):
                 return None
         try:
             outs = self._ev(node, State(), m, None, self.max_depth)
@@ -1705,6 +1719,10 @@ class Evaluator:
                     and bt[0] not in ('dict', 'list', 'tuple', 'set') and not any(x[0] == 'starred' for x in pos):
                 kws = list(kws) + list(zip(msig, pos))       # x.sum(1) == x.sum(axis=1)
                 pos = []
+            if name in ('all', 'any') and not pos and bt[0] not in ('list', 'tuple', 'dict', 'set', 'c') \
+                    and all(k_ in ('axis', 'keepdims') for k_, _ in kws):
+                # x.all() / x.any() on an array expression is np.all(x) / np.any(x)
+                return [(('call', 'numpy.' + name, (bt,), tuple(sorted(kws, key=lambda x: x[0]))), st, 'ok')]
             t = ('meth', name, bt, tuple(pos), tuple(sorted(kws, key=lambda x: x[0])))
             if name in MUTATING_METHODS:
                 key = _lvalue_key(e.func.value)
@@ -1789,6 +1807,11 @@ class Evaluator:
                 kws = [(k, v) for k, v in kws if not (k in dfl and v == C(dfl[k]))]    # explicit defaults dropped
             # one spelling for "indices where a 1-D condition holds":
             #   np.nonzero(c) == np.where(c) ;  np.flatnonzero(c) == np.where(c)[0]
+            _UF = {'numpy.equal': '==', 'numpy.not_equal': '!=', 'numpy.greater': '>', 'numpy.less': '<',
+                   'numpy.greater_equal': '>=', 'numpy.less_equal': '<='}
+            if callee.dotted in _UF and len(pos) == 2 and not kws:
+                # np.equal(a, b) is a == b
+                return [(canon_cmp(_UF[callee.dotted], pos[0], pos[1]), st, 'ok')]
             if callee.dotted == 'numpy.transpose' and len(pos) == 1 and not kws:
                 # np.transpose(x) == np.asarray(x).T
                 x = pos[0]
@@ -1829,8 +1852,14 @@ class Evaluator:
             inherit = None
             same_self = bool(getattr(f, 'is_method', False)) and isinstance(e.func, ast.Attribute) \
                 and isinstance(e.func.value, ast.Name) and e.func.value.id == 'self'
+            recv = None
+            if not same_self and bool(getattr(f, 'is_method', False)) and isinstance(e.func, ast.Attribute) \
+                    and isinstance(e.func.value, ast.Name) and e.func.value.id != 'self':
+                recv = e.func.value.id       # obj.helper(): the helper's `self.x` is the caller's `obj.x`
             if same_self:
                 inherit = {k_: v_ for k_, v_ in saved_env.items() if k_.startswith('self.')}
+            elif recv is not None:
+                inherit = {'self.' + k_[len(recv) + 1:]: v_ for k_, v_ in saved_env.items() if k_.startswith(recv + '.')}
             if not hasattr(self, '_frames'):
                 self._frames = []
             self._frames.append((fi, saved_env))
@@ -1849,6 +1878,10 @@ class Evaluator:
                     for k_, v_ in callee_env.items():
                         if k_.startswith('self.') and saved_env.get(k_) != v_:
                             s2.env[k_] = v_
+                elif recv is not None:
+                    for k_, v_ in callee_env.items():
+                        if k_.startswith('self.') and saved_env.get(recv + k_[4:]) != v_:
+                            s2.env[recv + k_[4:]] = v_
                 # an array handed to the helper and updated there in place (element stores, in-place methods, also
                 # inside its loops) is updated for the caller too: every caller variable holding that argument now
                 # holds the updated value
@@ -2240,7 +2273,29 @@ def _closed_vec(t):
     return res
 
 
+def _slice_index(idx):
+    # a slice object built with slice(a, b) and used as an index is the index a:b
+    def one(t):
+        if t[0] == 'call' and t[1] == 'builtins.slice' and 1 <= len(t[2]) <= 3 and not t[3]:
+            p_ = t[2]
+            if len(p_) == 1:
+                return ('slice', NONE, p_[0], NONE)
+            return ('slice', p_[0], p_[1], p_[2] if len(p_) == 3 else NONE)
+        return t
+    if idx[0] == 'tuple':
+        new = tuple(one(x) for x in idx[1])
+        return ('tuple', new) if new != idx[1] else idx
+    return one(idx)
+
+
 def _mk_sub(base, idx):
+    idx = _slice_index(idx)
+    if base[0] == 'cmp' and base[1] in ('==', '!=', '<', '<=', '>', '>=') and idx[0] != 'cmp':
+        # (A == k)[i]  is  A[i] == k  for a scalar k (a literal or a loop index)
+        def scalar(t):
+            return is_c(t) or t[0] == 'bv' or (t[0] == 's' and '@F' in t[1])
+        if scalar(base[3]) and not scalar(base[2]):
+            return canon_cmp(base[1], _mk_sub(base[2], idx), base[3])
     if base[0] in ('tuple', 'list') and idx[0] == 'slice' and not any(x[0] == 'starred' for x in base[1]) \
             and all(x == NONE or (is_c(x) and type(x[1]) is int) for x in idx[1:4]):
         sl = slice(*[None if x == NONE else x[1] for x in idx[1:4]])
